@@ -6,6 +6,9 @@ MC_CFG = "SPECIFICATION Spec\nINVARIANTS Decides\nCHECK_DEADLOCK FALSE\n%s\n"
 TRACE_CFG = "SPECIFICATION TraceSpec\nPOSTCONDITION TraceAccepted\nCHECK_DEADLOCK FALSE\n"
 
 
+REPLAY = ("TraceTotality", TRACE_CFG)
+
+
 def signature(ev):
     if ev["op"] == "load":
         return "C10|load|shape=%s|text=%s|%s" % (ev["shape"], ev["text"] if ev["shape"].startswith("valid") or ev["shape"] == "hugelist" else "-", ev["outcome"])
